@@ -20,6 +20,26 @@ SEMANTIC = [
   ('unbound_comparison_var', 'P(x) :- Q(x, z), x > w;', 'P', 'w'),
   ('unbound_in_negated_comparison', 'P(x) :- Q(x, z), ~(w > 3);', 'P', 'w'),
   ('unbound_in_assignment_rhs', 'P(x, v) :- Q(x, z), v == w + 1;', 'P', 'w'),
+  # the unbound variable sits inside each kind of expression (list / record literal, call argument,
+  # if-then-else, aggregated value, predicate argument expression, concatenation)
+  ('unbound_in_list_rhs', 'P(x) :- Q(x, z), x in [w];', 'P', 'w'),
+  ('unbound_in_list_assigned', 'P(x) :- Q(x, z), l == [w], x in l;', 'P', 'w'),
+  ('unbound_in_head_list', 'P(x, [w]) :- Q(x, z);', 'P', 'w'),
+  ('unbound_in_head_list_second', 'P(x, [z, w]) :- Q(x, z);', 'P', 'w'),
+  ('unbound_in_head_record', 'P(x, {a: w}) :- Q(x, z);', 'P', 'w'),
+  ('unbound_in_record_field_cmp', 'P(x) :- Q(x, z), {a: w}.a > x;', 'P', 'w'),
+  ('unbound_in_call_arg', 'P(x, Greatest(x, w)) :- Q(x, z);', 'P', 'w'),
+  ('unbound_in_call_arg_body', 'P(x) :- Q(x, z), Greatest(z, w) > 1;', 'P', 'w'),
+  ('unbound_in_if_branch', 'P(x, if x > 0 then w else 1) :- Q(x, z);', 'P', 'w'),
+  ('unbound_in_if_cond', 'P(x, if w > 0 then 2 else 1) :- Q(x, z);', 'P', 'w'),
+  ('unbound_in_combine_body', 'P(x, s) :- Q(x, z), s == Sum{w :- Q(x, u)};', 'P', 'w'),
+  ('unbound_in_agg_value', 'P(x) += w :- Q(x, z);', 'P', 'w'),
+  ('unbound_in_agg_named', 'P(x, m? Max= w) distinct :- Q(x, z);', 'P', 'w'),
+  ('unbound_in_list_in_call', 'P(x, Size([w, x])) :- Q(x, z);', 'P', 'w'),
+  ('unbound_in_negated_pred_arg', 'P(x) :- Q(x, z), ~Q(x, w + 1);', 'P', 'w'),
+  ('unbound_in_pred_arg_expr', 'P(x) :- Q(x, z), Q(w + 1, z);', 'P', 'w'),
+  ('unbound_in_if_list', 'P(x, y) :- Q(x, z), y == (if z > 0 then [w] else [x]);', 'P', 'w'),
+  ('unbound_in_concat', 'P("a" ++ w) :- Q(x, z);', 'P', 'w'),
   ('unbound_through_injection', 'Big(x) :- T(x), x > y;\nP(x) :- T(x), Big(x);', 'P', 'y'),
   # the unbound variable of the injected rule has the same name as a bound variable of the caller
   ('unbound_through_injection_same_name', 'Big(x) :- T(x), x > y;\nP(y) :- T(y), Big(y);', 'P', 'y'),
@@ -32,6 +52,9 @@ SEMANTIC = [
   ('mutual_recursion_without_base', 'A(x) :- B(y), Q(y, x);\nB(x) :- A(y), Q(y, x);', 'A', None),
   ('functor_bad_argument', 'F(x) :- A(x);\nG := F(B: C);\nP(x) :- G(x);', 'P', 'B'),
   ('functor_bad_argument_2', 'H(x) :- D(x);\nF(x) :- A(x), H(x);\nG := F(A: C, Zz: C);\nP(x) :- G(x);', 'P', 'Zz'),
+  ('functor_one_good_one_bad', 'F(x) :- A(x), B(x);\nG := F(A: T, Cc: R);\nP(x) :- G(x);', 'P', 'Cc'),
+  ('functor_two_good_one_bad', 'F(x) :- A(x), B(x);\nG := F(A: T, B: S, Bb: R);\nP(x) :- G(x);', 'P', 'Bb'),
+  ('functor_chained_substituted_away', 'F(x) :- A(x), B(x);\nG := F(A: T);\nH := G(A: R, B: S);\nP(x) :- H(x);', 'P', 'A'),
 ] + [
   ('annotation_of_missing_%s' % a.strip('@'), 'T(1);\nP(x) :- T(x);\n%s;' % s, 'P', 'Nope')
   for a, s in [('@Limit', '@Limit(Nope, 1)'), ('@OrderBy', '@OrderBy(Nope, "col0")'), ('@NoInject', '@NoInject(Nope)'),
